@@ -26,6 +26,14 @@ CLAIMED = {
              "messages) is a record that TLC judges with the same monitor (EodOnce/NoBareLF/lines preserved).",
         note="alphabet {CR,LF,'.',x} represents the byte classes; scripted server and seam harness are trusted to record bytes faithfully",
         design="5 C06"),
+    "C02": dict(
+        technique="TLA+ file-granularity model of injectors, daemon, cleaner, failure clean-up, crash/restart, stale-entry collection and inode reuse checked exhaustively by TLC + TLC trace validation of directory events of all processes in gated histories of the real qmail-queue/qmail-send/qmail-clean under random schedules, kills and crashes",
+        text="QueueState.tla states the five documented states and the documented order of disappearance as a monitor over directory events; QueueFiles.tla is explored exhaustively (2-3 injectors, "
+             "inode pool of 2, crashes) with the monitor judging every step. On the real programs 1-3 qmail-queue processes run at once against the daemon under seeded random schedules at "
+             "system-call granularity, the daemon is crashed before its mutating calls and restarted, injectors are killed before each call (stale entries), the clock is moved past 36 h and "
+             "clean-up periods, a second qmail-send is started; TLC replays every directory event and evaluates the state table after each.",
+        note="directory operations synchronous; readdir as the kernel behaves; one process moves at a time (gate)",
+        design="5 C02"),
     "C03": dict(
         technique="TLA+ model of the queue manager as a generator of observable events composed with a monitor state machine (TLC, exhaustive for small configurations) + TLC trace validation of histories executed on the real qmail-send/qmail-clean/qmail-queue under a system-call gate (crash before every mutating call, data kept / lost, single failing calls)",
         text="TLC explores QSend (accept, preprocess, deliveries, any report class in any order, foreign reports, bounce, crash with optional loss of un-synced marks "
